@@ -11,7 +11,7 @@ transaction starts from.
 
 `info_exact` (all reachable states) is a corollary of the global invariant `DbInv` + the size
 invariant `SzInv` (Gsu/Proofs/DbInv1–9.lean), both kept by every `Op` of `step`. Hypotheses on
-the history: `OpsOK` (see C06) and, for sizes, `(newOffs ops).Nodup` — every record written gets
+the history: `OpsOK` (see C06) and, for sizes, `(okOffs State.init ops).Nodup` — every record written gets
 an offset no earlier record got (append-only store, C18).
 -/
 import Gsu.Proofs.DbInv9
@@ -98,17 +98,17 @@ theorem info_count_exact (ops : List Op) (hok : OpsOK State.init ops) (j : Nat) 
   ⟨((dbinv_reachable ops hok).tbl j ti hj).cnt, ((dbinv_reachable ops hok).tbl j ti hj).deltas⟩
 
 /-- info_exact — FULL, all reachable states: after any history of well-formed operations in which
-every record written (Output / Update) gets an offset no earlier record of the history got — what
+every record a successful Output / Update adds gets an offset no earlier such record of the history got — what
 the append-only store guarantees (C18) — every table of the visible state reports
 `nrows = |rows|` and `size = Σ row sizes`. -/
-theorem info_exact (ops : List Op) (hok : OpsOK State.init ops) (hfr : (newOffs ops).Nodup)
+theorem info_exact (ops : List Op) (hok : OpsOK State.init ops) (hfr : (okOffs State.init ops).Nodup)
     (j : Nat) (ti : Info) (hj : (run State.init ops).mt[j]? = some ti) :
     ti.nrows = ti.rows.length ∧ ti.size = rowsSize ti.rows :=
   info_exact_reachable ops hok hfr j ti hj
 
 /-- … and so is what every transaction reports for every table it can see (what `info` shows
 inside a transaction: snapshot counts + its own deltas) = the rows and bytes of its view -/
-theorem info_exact_tran (ops : List Op) (hok : OpsOK State.init ops) (hfr : (newOffs ops).Nodup)
+theorem info_exact_tran (ops : List Op) (hok : OpsOK State.init ops) (hfr : (okOffs State.init ops).Nodup)
     (t : Tran) (ht : t ∈ (run State.init ops).trans) (j : Nat) (sti : Info) (d : TDif)
     (hs : t.snap[j]? = some sti) (hd : t.dif[j]? = some d) :
     sti.nrows + d.dn = (d.view sti.rows).length ∧ sti.size + d.ds = rowsSize (d.view sti.rows) :=
@@ -120,7 +120,7 @@ transaction whose snapshot still holds the old record can delete "offset 20" and
 old size — the model's independence guard compares offsets only. (A property of the model's
 abstraction "a row is its offset", not of the code: offsets are never reused, C18.) -/
 theorem info_size_offset_reuse_counter :
-    ∃ ops : List Op, OpsOK State.init ops ∧ ¬ (newOffs ops).Nodup ∧
+    ∃ ops : List Op, OpsOK State.init ops ∧ ¬ (okOffs State.init ops).Nodup ∧
       ((run State.init ops).mt.map fun ti => (ti.size, rowsSize ti.rows)) = [(2, 0)] :=
   ⟨[.table 1, .begin_ 0, .out 0 0 ⟨20, 5, [[1]]⟩, .commit 0, .begin_ 1, .begin_ 2, .del 2 0 20, .commit 2,
     .begin_ 3, .out 3 0 ⟨20, 7, [[1]]⟩, .commit 3, .del 1 0 20, .commit 1],
@@ -163,7 +163,7 @@ def hist : List Op := [.table 2,
 
 -- non-vacuity of `info_exact`: the hypotheses hold for this history, all its steps succeed, and
 -- the counts it ends with are the ones the theorem predicts (2 rows, 9 + 4 bytes)
-example : OpsOK State.init hist ∧ (newOffs hist).Nodup := ⟨opsOKb_sound _ _ (by decide), by decide⟩
+example : OpsOK State.init hist ∧ (okOffs State.init hist).Nodup := ⟨opsOKb_sound _ _ (by decide), by decide⟩
 example : (step (run State.init (hist.take 13)) (.commit 2)).2 = "ok" := by decide
 example : ((run State.init hist).mt.map fun ti => (ti.nrows, ti.size, ti.rows.length, rowsSize ti.rows)) =
     [(2, 13, 2, 13)] := by decide
